@@ -53,6 +53,9 @@ def _reach(base, rel, files, depth=0):
 def case(cid, files, root, **kw):
     c = {"id": cid, "files": {k: b64(v) for k, v in files.items()}, "root": root}
     c.update(kw)
+    for f in ("banned", "banned2"):
+        if f in c:
+            c[f] = ["200" if k == "HTTP-response-code" else k for k in c[f]]
     return c
 
 
@@ -301,6 +304,8 @@ def rw_parens(fx, rnd):
     for i, (n, parent, depth) in enumerate(nodes):
         if not n["c"] or n["x"] or n["k"] in ("MACRO",) or rnd.random() < 0.5:
             continue
+        if any(x["k"] == "PASTE" for x, _, _ in preorder([n])):
+            continue            # what a PASTE brings need not nest where the PASTE stands
         first = n["c"][0]["b"]
         # end of the subtree = begin of the next directive in pre-order that is not a descendant
         size = len(preorder([n]))
@@ -420,11 +425,450 @@ def c05(chk, tier):
     chk.extra["fixtures_used_c05"] = len(fxs)
 
 
-def replay_pair(rp):
-    """two runs of a recorded fixture pair"""
+def _allof_depth(data):
+    """length of the longest allOf chain written in the file (textual: 'allOf' followed by type names on its line)"""
+    g = {}
+    for m in re.finditer(rb"(?ms)^[ \t]*TYPE[ \t]+(@[A-Za-z0-9_]+)(.*?)(?=^[ \t]*(?:TYPE|ENUM|URL|GET|POST|PUT|PATCH|DELETE|SERVER|INFO|TAG|MACRO)\b|\Z)", data):
+        g[m.group(1)] = set(x for ln in re.findall(rb"allOf[^\r\n]*", m.group(2)) for x in re.findall(rb"@[A-Za-z0-9_]+", ln))
+
+    def dep(n, seen=()):
+        if n not in g or n in seen:
+            return 0
+        return max([1 + dep(x, seen + (n,)) for x in g[n]] + [0])
+    return max([dep(n) for n in g] + [0])
+
+
+def _top_shapes(forest):
+    return sorted(repr(shape(n)) for n in forest)
+
+
+def c10(chk, tier):
+    """top-level blocks of accepted single-file fixtures in other orders"""
+    import c10 as C10
+    thorough = tier == "thorough"
+    fxs = [fx for fx in load(tier, want_ok=True, limit=None if thorough else 160, salt=10) if len(fx.files) == 1]
+    rnd = random.Random(seed() * 31 + 10)
+    cases, meta = [], {}
+    for n, fx in enumerate(fxs):
+        tb = top_blocks(fx)
+        if not tb or len(tb[0]) < 2:
+            continue
+        blocks, head = tb
+        idx = list(range(len(blocks)))
+        perms = [idx[::-1]]
+        for _ in range(4 if thorough else 2):
+            p = idx[:]
+            rnd.shuffle(p)
+            if p != idx and p not in perms:
+                perms.append(p)
+        # rotate: the last block first (a declaration used by everything above it)
+        rot = idx[-1:] + idx[:-1]
+        if rot not in perms and rot != idx:
+            perms.append(rot)
+        for j, p in enumerate(perms):
+            data = fx.data[:blocks[0][0]] + b"".join(fx.data[blocks[i][0]:blocks[i][1]] for i in p)
+            cid = "fp%d_%d" % (n, j)
+            cases.append(case(cid, {fx.root: data}, fx.root, want=["forest"]))
+            meta[cid] = (fx, p, data)
+    obs = harness("run", cases)
+    judged = skipped = 0
+    for cid, (fx, p, data) in meta.items():
+        a, b = fx.obs, obs[cid]
+        if b["outcome"] in ("ok", "error") and "scan" in (b.get("stages") or []) and _top_shapes(b.get("forest") or []) != _top_shapes(fx.forest):
+            skipped += 1        # in this order a block nests differently (implicit contexts): not a permutation of declarations
+            continue
+        if "scan" not in (b.get("stages") or []) and b["outcome"] == "error":
+            skipped += 1        # rejected while scanning: the order changed what the lines mean
+            continue
+        judged += 1
+        chk.evaluations += 1
+        chk.traces += 1
+        chk.nontrivial.add(("fx", fx.name, tuple(p)))
+        bad = C10.compare_perm(a, b, None, p)
+        if bad:
+            sig = {"what": "usedUserTypes-only" if "[only usedUserTypes differ]" in bad else bad.split(":")[0][:60],
+                   "allof_depth": str(_allof_depth(fx.data)), "msg": (b.get("err") or {}).get("msg", ""), "fixture": fx.name}
+            chk.violation("reordering the top-level blocks of fixture %s as %s: %s | permuted document:\n%s" % (
+                fx.name, p, bad, data.decode("latin1")[:1500]),
+                {"kind": "fxpair", "fixture": fx.name, "root": fx.root, "perm": p,
+                 "files_a": {fx.root: b64(fx.data)}, "files_b": {fx.root: b64(data)}, "signature": sig}, sig)
+    chk.extra["fixture_permutations_judged"] = judged
+    chk.extra["fixture_permutations_skipped_nesting_changed"] = skipped
+
+
+def sibling_runs(fx, rnd, count, kinds_excluded=("JSIGHT",)):
+    """runs of complete sibling subtrees of a single-file fixture: (start, end, parent kind or None, nodes).  The run
+    is a whole number of lines, balanced in parentheses, and its parent is not parenthesised."""
+    d = fx.data
+    if len(fx.files) != 1 or fx.nl is None or not d.endswith((b"\n", b"\r")):
+        return []
+    flat = preorder(fx.forest)
+    if any(n["f"] != fx.root for n, _, _ in flat):
+        return []
+    lsof = {b: ls for (ls, b, k, t, pt) in fx.kwl if t == KW}
+    if any(n["b"] not in lsof for n, _, _ in flat):
+        return []
+    pos = {id(n): i for i, (n, _, _) in enumerate(flat)}
+    groups = [(None, fx.forest)] + [(n, n["c"]) for n, _, _ in flat if n["c"] and not n["x"]]
+    cands = []
+    for parent, ch in groups:
+        for i in range(len(ch)):
+            for j in range(i, len(ch)):
+                cands.append((parent, ch, i, j))
+    rnd.shuffle(cands)
+    res = []
+    for parent, ch, i, j in cands:
+        if len(res) >= count:
+            break
+        nodes = ch[i:j + 1]
+        sub = [x for n in nodes for x, _, _ in preorder([n])]
+        if any(x["k"] in kinds_excluded for x in sub):
+            continue
+        start = lsof[ch[i]["b"]]
+        after = pos[id(ch[j])] + len(preorder([ch[j]]))
+        end = lsof[flat[after][0]["b"]] if after < len(flat) else len(d)
+        bal = 0
+        ok = True
+        for (t, b, e) in fx.lex:
+            if start <= b < end:
+                if t == OPEN:
+                    bal += 1
+                elif t == CLOSE:
+                    bal -= 1
+                    if bal < 0:
+                        ok = False
+        if not ok or bal != 0:
+            continue
+        res.append((start, end, parent["k"] if parent else None, nodes))
+    return res
+
+
+def c08(chk, tier):
+    """runs of complete top-level directives / complete children of an implicitly nested directive of a fixture moved
+    into an included file"""
+    import rel
+    thorough = tier == "thorough"
+    fxs = load(tier, limit=None if thorough else 160, salt=8, single_file=True)
+    rnd = random.Random(seed() * 31 + 8)
+    cases, meta = [], {}
+    for n, fx in enumerate(fxs):
+        for j, (s, e, pk, nodes) in enumerate(sibling_runs(fx, random.Random(rnd.random()), 6 if thorough else 2)):
+            name = rnd.choice(["vfpart.jst", "vfsub/part.jst", "vfsub/deep/p.jst"])
+            ind = fx.data[s:fx.data.find(fx.data[s:].lstrip(b" \t")[:1], s)] if fx.data[s:].lstrip(b" \t") else b""
+            main = fx.data[:s] + ind + b"INCLUDE " + name.encode() + fx.nl + fx.data[e:]
+            files = {fx.root: main, name: fx.data[s:e]}
+            cid = "fi%d_%d" % (n, j)
+            cases.append(case(cid, files, fx.root))
+            depth = sum(1 if t == OPEN else -1 for (t, b, e) in fx.lex if t in (OPEN, CLOSE) and b < s)
+            meta[cid] = (fx, pk, files, name, depth)
+    obs = harness("run", cases)
+    for cid, (fx, pk, files, name, depth) in meta.items():
+        a, b = fx.obs, obs[cid]
+        chk.evaluations += 1
+        chk.traces += 1
+        chk.nontrivial.add(("fx", fx.name, files[fx.root]))
+        if rel.result_key(a) != rel.result_key(b):
+            d = rel.json_diff(a["json"], b["json"]) if a["outcome"] == b["outcome"] == "ok" else ""
+            sig = {"form": "fixture-run:" + (pk or "top"), "what": "moving directives into included files changed the result", "frames": ",".join(b.get("frames") or []),
+                   "fixture": fx.name, "msg": (b.get("err") or {}).get("msg", ""),
+                   "detail": "include-inside-open-parenthesis" if depth > 0 and a["outcome"] == "ok" and b["outcome"] == "error"
+                   and (b["err"] or {}).get("file", "").endswith(name) else ""}
+            chk.violation("moving a run of complete %s of fixture %s into %s changed the result: one file %s, two files %s %s | main file:\n%s\n--- %s:\n%s" % (
+                "children of " + pk if pk else "top-level directives", fx.name, name, rel.describe(a), rel.describe(b), d,
+                files[fx.root].decode("latin1")[:1200], name, files[name].decode("latin1")[:600]),
+                {"kind": "fxpair", "fixture": fx.name, "root": fx.root, "files_a": {k: b64(v) for k, v in fx.files.items()},
+                 "files_b": {k: b64(v) for k, v in files.items()}, "signature": sig}, sig)
+    chk.extra["fixture_include_pairs"] = len(meta)
+
+
+def c07(chk, tier):
+    """the same runs moved into a MACRO and pasted in their place: if the macro form is accepted, the fixture (= the
+    inlined document) is accepted with the same catalog"""
+    import json
+    import rel
+    thorough = tier == "thorough"
+    fxs = load(tier, limit=None if thorough else 160, salt=7, single_file=True)
+    rnd = random.Random(seed() * 31 + 7)
+    cases, meta = [], {}
+    for n, fx in enumerate(fxs):
+        tops = fx.forest
+        if not tops or tops[0]["k"] != "JSIGHT":
+            continue
+        lsof = {b: ls for (ls, b, k, t, pt) in fx.kwl if t == KW}
+        for j, (s, e, pk, nodes) in enumerate(sibling_runs(fx, random.Random(rnd.random()), 6 if thorough else 2, kinds_excluded=("JSIGHT", "MACRO"))):
+            mname = b"@vfMacro%d" % j
+            body = fx.data[s:e]
+            macro = b"MACRO " + mname + fx.nl + b"(" + fx.nl + body + b")" + fx.nl
+            paste = b"PASTE " + mname + fx.nl
+            where = rnd.choice(["end", "begin"])
+            if where == "end" or len(tops) < 2 or tops[1]["b"] not in lsof:
+                data = fx.data[:s] + paste + fx.data[e:] + macro
+            else:
+                at = lsof[tops[1]["b"]]
+                if at > s:
+                    continue
+                data = fx.data[:at] + macro + fx.data[at:s] + paste + fx.data[e:]
+            cid = "fm%d_%d" % (n, j)
+            cases.append(case(cid, {fx.root: data}, fx.root, timeout=15000))
+            meta[cid] = (fx, pk, data, where)
+    obs = harness("run", cases)
+    accepted = 0
+    for cid, (fx, pk, data, where) in meta.items():
+        a, b = fx.obs, obs[cid]
+        chk.evaluations += 1
+        chk.traces += 1
+        bad = None
+        if b["outcome"] in ("panic", "fatal", "timeout"):
+            bad = "macro form: %s" % rel.describe(b)
+        elif b["outcome"] == "ok":
+            accepted += 1
+            chk.nontrivial.add(("fx", fx.name, data))
+            if a["outcome"] != "ok":
+                bad = "macro form accepted but the inlined document is not: %s" % rel.describe(a)
+            elif json.loads(a["json"]) != json.loads(b["json"]):
+                bad = "catalog of the macro form differs from the inlined document: %s" % rel.json_diff(a["json"], b["json"])
+        if bad:
+            sig = {"variant": "fixture-run:" + (pk or "top"), "what": bad.split(":")[0][:60], "frames": ",".join(b.get("frames") or []), "fixture": fx.name}
+            chk.violation("%s (run of %s of fixture %s moved into a macro, defined at the %s) | macro form:\n%s" % (
+                bad, "children of " + pk if pk else "top-level directives", fx.name, where, data.decode("latin1")[:1500]),
+                {"kind": "fxpair", "fixture": fx.name, "root": fx.root, "files_a": {fx.root: b64(fx.data)}, "files_b": {fx.root: b64(data)},
+                 "signature": sig}, sig)
+    chk.extra["fixture_macro_forms"] = len(meta)
+    chk.extra["fixture_macro_forms_accepted"] = accepted
+
+
+ALL_KINDS = ["JSIGHT", "INFO", "Title", "Version", "Description", "SERVER", "BaseUrl", "URL", "GET", "POST", "PUT", "PATCH",
+             "DELETE", "Body", "Request", "HTTP-response-code", "Path", "Headers", "Query", "TYPE", "ENUM", "MACRO", "PASTE",
+             "INCLUDE", "Protocol", "Method", "Params", "Result", "TAG", "Tags"]
+
+
+def c18(chk, tier):
+    """accepted fixture projects (one file or many) with ban sets: a kind that occurs => 'not allowed' at a directive of
+    that kind, nothing read for a banned INCLUDE; no banned kind occurs => exactly the result without the option"""
+    import rel
+    thorough = tier == "thorough"
+    fxs = load(tier, want_ok=True, limit=None if thorough else 200, salt=18)
+    rnd = random.Random(seed() * 31 + 18)
+    cases, meta = [], {}
+    for n, fx in enumerate(fxs):
+        flat = preorder(fx.forest)
+        used = {}
+        for nd, _, _ in flat:
+            used.setdefault(nd["k"], []).append((nd["f"], nd["b"]))
+        if len(fx.files) > 1 or _INC.search(fx.data):
+            for rel_, data in fx.files.items():
+                for m in _INC.finditer(data):
+                    used.setdefault("INCLUDE", []).append((rel_, m.start() + len(m.group(0)) - len(m.group(0).lstrip(b" \t"))))
+        kinds = sorted(used)
+        picks = kinds if thorough else rnd.sample(kinds, min(2, len(kinds)))
+        for k in picks:
+            if k == "JSIGHT":
+                continue
+            cid = "fb%d_%s" % (n, k)
+            others = rnd.sample([x for x in ALL_KINDS if x not in used], rnd.randrange(0, 3))
+            ban = [k] + others
+            rnd.shuffle(ban)
+            cases.append(case(cid, fx.files, fx.root, banned=ban))
+            meta[cid] = (fx, ban, [k], used)
+        unused = [x for x in ALL_KINDS if x not in used]
+        for j in range(3 if thorough else 1):
+            if not unused:
+                break
+            ban = rnd.sample(unused, rnd.randrange(1, min(6, len(unused)) + 1))
+            cid = "fu%d_%d" % (n, j)
+            kw = {"banned": ban}
+            if j == 1 and len(ban) > 1:
+                kw = {"banned": ban[:1], "banned2": ban[1:]}
+            cases.append(case(cid, fx.files, fx.root, **kw))
+            meta[cid] = (fx, ban, [], used)
+    obs = harness("run", cases)
+    hit = 0
+    for cid, (fx, ban, occurs, used) in meta.items():
+        a, b = fx.obs, obs[cid]
+        chk.evaluations += 1
+        chk.traces += 1
+        chk.nontrivial.add(("fx", fx.name, tuple(sorted(ban))))
+        bad = None
+        sig = {"ban": ",".join(occurs) or "none", "form": "fixture", "fixture": fx.name}
+        if occurs:
+            hit += 1
+            if b["outcome"] != "error":
+                bad = "banned kind(s) %s occur in the project, but the run was: %s" % (occurs, rel.describe(b))
+                sig["what"] = "not rejected"
+            else:
+                e = b["err"]
+                places = [(f, i) for k in ban for (f, i) in used.get(k, [])]
+                if "not allowed" not in e["msg"]:
+                    bad = "banned kind(s) %s occur, rejected but not with a 'not allowed' diagnostic: %r" % (occurs, e["msg"])
+                    sig["what"] = "other diagnostic"
+                elif not any(e["index"] == i and (e["file"] == f or e["file"].endswith("/" + f) or f.endswith("/" + e["file"])) for (f, i) in places):
+                    bad = "'not allowed' diagnostic at %s:%d (byte %d), which is not a directive of a banned kind %s" % (e["file"], e["line"], e["index"], ban)
+                    sig["what"] = "wrong location"
+                if "INCLUDE" in ban and any(op == "read" for op, _ in b.get("fileops") or []):
+                    bad = "INCLUDE is banned but an included file was read: %s" % b["fileops"]
+                    sig["what"] = "file read"
+        elif rel.result_key(a) != rel.result_key(b):
+            bad = "no banned kind occurs (banned %s) but the result differs from the run without the option: %s vs %s" % (
+                ban, rel.describe(a), rel.describe(b))
+            sig["what"] = "unrelated ban changed result"
+        if bad:
+            chk.violation("%s | fixture %s" % (bad, fx.name),
+                          {"kind": "fxban", "fixture": fx.name, "root": fx.root, "ban": ban, "occurs": occurs,
+                           "files_a": {k: b64(v) for k, v in fx.files.items()}, "signature": sig}, sig)
+    chk.extra["fixture_ban_cases"] = len(meta)
+    chk.extra["fixture_ban_cases_with_banned_kind_present"] = hit
+
+
+FRESH = [
+    ("TYPE", ["TYPE @vfFreshType", "{", '  "vf": 1, // {optional: true}', '  "vg": "s"', "}"], [("userTypes", "@vfFreshType")]),
+    ("TYPE", ["TYPE @vfFreshAny any"], [("userTypes", "@vfFreshAny")]),
+    ("TYPE", ["TYPE @vfFreshRe regex", "  /^v[0-9]+$/"], [("userTypes", "@vfFreshRe")]),
+    ("ENUM", ["ENUM @vfFreshEnum // fresh", "[", '  "a", // first', "  2", "]"], [("userEnums", "@vfFreshEnum")]),
+    ("SERVER", ["SERVER @vfFreshServer // fresh", '  BaseUrl "https://vf.example.com/api"'], [("servers", "@vfFreshServer")]),
+    ("TAG", ["TAG @vfFreshTag // Fresh"], [("tags", "@vfFreshTag")]),
+    ("MACRO", ["MACRO @vfFreshMacro", "(", "  TYPE @vfNeverPasted any", "  ENUM @vfNeverE", '  ["q"]', ")"], []),
+    ("GET", ["GET /vffreshroot/{vfid}/x // fresh", "  Path", "  {", '    "vfid": 1', "  }", "  200 any"],
+     [("interactions", "http GET /vffreshroot/{vfid}/x"), ("tags", "@vffreshroot")]),
+    ("URL", ["URL /vffreshrpc", "  Protocol json-rpc-2.0", "  Method vfm", "    Params", "      [1]", "    Result", "      {", '        "id": 1', "      }"],
+     [("interactions", "json-rpc-2.0 vfm /vffreshrpc"), ("tags", "@vffreshrpc")]),
+]
+_DECL = {"TYPE": "userTypes", "ENUM": "userEnums", "SERVER": "servers", "TAG": "tags", "MACRO": None}
+
+
+def c20(chk, tier):
+    """fresh declarations appended to / inserted into accepted fixtures; top-level declarations of a fixture whose name
+    occurs nowhere else removed"""
+    import json
+    import c20 as C20
+    thorough = tier == "thorough"
+    fxs = load(tier, want_ok=True, limit=None if thorough else 160, salt=20)
+    rnd = random.Random(seed() * 31 + 20)
+    cases, meta = [], {}
+    for n, fx in enumerate(fxs):
+        if fx.nl is None or not fx.data.endswith((b"\n", b"\r")):
+            continue
+        alltext = b"\n".join(fx.files.values())
+        if b"vfFresh" in alltext or b"vffresh" in alltext:
+            continue
+        tb = top_blocks(fx) if len(fx.files) == 1 else None
+        for j, (kind, lines, keys) in enumerate(FRESH if thorough else rnd.sample(FRESH, 3)):
+            blk = fx.nl.join(x.encode() for x in lines) + fx.nl
+            where = "end"
+            data = fx.data + blk
+            if tb and tb[0] and kind in ("TYPE", "ENUM", "SERVER") and rnd.random() < 0.6:
+                cand = [b for b in tb[0] if b[2]["k"] not in ("PASTE", "TAG", "Description")]
+                if cand:
+                    at = rnd.choice(cand)[0]
+                    data = fx.data[:at] + blk + fx.data[at:]
+                    where = "before a top-level block"
+            cid = "fa%d_%d" % (n, j)
+            cases.append(case(cid, fx.text_files(data), fx.root, want=["forest"]))
+            meta[cid] = (fx, "add", kind, keys, data, where, None)
+        if tb:
+            removable = list(tb[0])
+            rnd.shuffle(removable)
+            taken = 0
+            for (st, en, node) in removable:
+                if taken >= (8 if thorough else 3) or fx.obs.get("ms", 0) > 400:
+                    break
+                coll = _DECL.get(node["k"], "x")
+                if coll == "x":
+                    continue
+                m = re.match(rb"[ \t]*[A-Za-z]+[ \t]+(@[A-Za-z0-9_]+)", fx.data[st:en])
+                if not m:
+                    continue
+                nm = m.group(1)
+                if len(re.findall(re.escape(nm) + rb"(?![A-Za-z0-9_])", alltext)) != 1:
+                    continue
+                data = fx.data[:st] + fx.data[en:]
+                cid = "fr%d_%d" % (n, st)
+                taken += 1
+                cases.append(case(cid, {fx.root: data}, fx.root, want=["forest"]))
+                meta[cid] = (fx, "remove", node["k"], [(coll, nm.decode())] if coll else [], data, "", repr(shape(node)))
+    obs = harness("run", cases)
+    judged = skipped = 0
+    if os.environ.get("VERIF_DEBUG"):
+        print(sorted(((o["ms"], k) for k, o in obs.items()), reverse=True)[:10])
+    for cid, (fx, op, kind, keys, data, where, removed_shape) in meta.items():
+        o = obs[cid]
+        base_shapes = _top_shapes(fx.forest)
+        shapes = _top_shapes(o.get("forest") or []) if "scan" in (o.get("stages") or []) else None
+        if shapes is not None:
+            if op == "add":
+                extra = list(shapes)
+                for x in base_shapes:
+                    if x in extra:
+                        extra.remove(x)
+                if len(shapes) != len(base_shapes) + 1 or len(extra) != 1:
+                    skipped += 1     # the fresh block changed where a neighbour nests: not an independent addition
+                    continue
+            else:
+                rest = list(base_shapes)
+                if removed_shape in rest:
+                    rest.remove(removed_shape)
+                if sorted(rest) != shapes:
+                    skipped += 1
+                    continue
+        judged += 1
+        chk.evaluations += 1
+        chk.traces += 1
+        chk.nontrivial.add(("fx", fx.name, op, kind, data))
+        if op == "add":
+            bad = C20.compare(fx.obs, o, keys)
+        else:
+            bad = C20.compare(o, fx.obs, keys)
+        if bad:
+            sig = {"what": bad.split(":")[0][:50], "kind": "fixture-" + op + "-" + kind, "fixture": fx.name}
+            chk.violation("%s an independent %s block (%s) in fixture %s: %s | changed root file:\n%s" % (
+                "adding" if op == "add" else "removing", kind, where, fx.name, bad, data.decode("latin1")[-1200:]),
+                {"kind": "fxpair", "fixture": fx.name, "root": fx.root, "op": op, "keys": keys,
+                 "files_a": {k: b64(v) for k, v in fx.files.items()}, "files_b": {k: b64(v) for k, v in fx.text_files(data).items()},
+                 "signature": sig}, sig)
+    chk.extra["fixture_locality_pairs"] = judged
+    chk.extra["fixture_locality_skipped_nesting_changed"] = skipped
+
+
+def replay(pid, rp):
+    """re-runs a recorded fixture case and judges it by the rule of property pid"""
+    import json
+    import rel
+    from common import Check
+    chk = Check(pid, "quick")
+    chk.evaluations = 1
+    sig = rp.get("signature")
+    if rp["kind"] == "fxban":
+        o = harness("run", [{"id": "a", "files": rp["files_a"], "root": rp["root"]},
+                            {"id": "b", "files": rp["files_a"], "root": rp["root"],
+                             "banned": ["200" if k == "HTTP-response-code" else k for k in rp["ban"]]}])
+        a, b = o["a"], o["b"]
+        if rp["occurs"]:
+            if b["outcome"] != "error" or "not allowed" not in b["err"]["msg"] or sig.get("what") == "wrong location":
+                chk.violation("reproduced: with %s banned the run was %s" % (rp["ban"], rel.describe(b)), rp, sig)
+        elif rel.result_key(a) != rel.result_key(b):
+            chk.violation("reproduced: %s vs %s" % (rel.describe(a), rel.describe(b)), rp, sig)
+        return chk.finish()
     o = harness("run", [{"id": "a", "files": rp["files_a"], "root": rp["root"], "want": ["forest"]},
                         {"id": "b", "files": rp["files_b"], "root": rp["root"], "want": ["forest"]}])
-    return o["a"], o["b"]
+    a, b = o["a"], o["b"]
+    bad = None
+    if pid in ("C05", "C08"):
+        if rel.result_key(a) != rel.result_key(b):
+            bad = "the two forms differ: %s vs %s" % (rel.describe(a), rel.describe(b))
+    elif pid == "C07":
+        if b["outcome"] in ("panic", "fatal", "timeout"):
+            bad = "macro form: %s" % rel.describe(b)
+        elif b["outcome"] == "ok" and (a["outcome"] != "ok" or json.loads(a["json"]) != json.loads(b["json"])):
+            bad = "macro form accepted, inlined document %s" % rel.describe(a)
+    elif pid == "C10":
+        import c10 as C10
+        bad = C10.compare_perm(a, b, None, rp.get("perm"))
+    elif pid == "C20":
+        import c20 as C20
+        keys = [tuple(k) for k in rp["keys"]]
+        bad = C20.compare(a, b, keys) if rp["op"] == "add" else C20.compare(b, a, keys)
+    if bad:
+        chk.violation("reproduced: " + bad, rp, sig)
+    return chk.finish()
 
 
 if __name__ == "__main__":
